@@ -375,6 +375,10 @@ fn format(opt: opt::Opt) -> Result<i32> {
                         Some(ErrorFileWrapper { file, error }) => {
                             match error.downcast_ref::<stylua_lib::Error>() {
                                 Some(stylua_lib::Error::ParseError(err)) => {
+                                    // The error is written to stderr directly instead of through error!,
+                                    // so the exit code must be set here
+                                    EXIT_CODE.store(2, Ordering::SeqCst);
+
                                     let structured_err =
                                         convert_parse_error_to_json(file, err.to_vec());
                                     // Force write to stderr directly
